@@ -28,7 +28,7 @@ Value model
 
 Public API
 ----------
-    run_function(module, name, args, index_bits=64, fuel=100000) -> Result
+    run_function(module, name, args, index_bits=64, fuel=100000, trace=None) -> Result
     run_function_any_index(module, name, args, fuel=100000) -> Result     (POISON if 32/64-bit index disagree)
     eval_op(op, args, index_bits=64) -> tuple          one region-free arith op on refsem-form operands
     arith_eval(name, args, in_tys, out_tys, attrs=None, index_bits=64) -> tuple      IR independent core
@@ -702,10 +702,11 @@ def _affine_eval(e, dims, syms):
 class _Eval:
     MAX_DEPTH = 40
 
-    def __init__(self, module, index_bits, fuel):
+    def __init__(self, module, index_bits, fuel, trace=None):
         self.module = module
         self.ib = index_bits
         self.fuel = fuel
+        self.trace = trace
         self.steps = 0
         self.effects = []
         self.ub = []
@@ -762,6 +763,8 @@ class _Eval:
                 self.tick()
                 name = _op_name(op)
                 vals = tuple([env[o] for o in op.operands])
+                if self.trace is not None:
+                    self.trace.append((op, vals))
                 h = _TERMINATORS.get(name)
                 if h is not None:
                     r = h(self, op, vals)
@@ -1132,13 +1135,15 @@ def _norm_arg(v, ty: str, ib: int):
     raise UnsupportedOp(f"argument of type {ty}")
 
 
-def run_function(module, name: str, args, index_bits: int = 64, fuel: int = 100000) -> Result:
+def run_function(module, name: str, args, index_bits: int = 64, fuel: int = 100000, trace=None) -> Result:
     """Evaluate function `name` of `module` (a builtin.module, or the func.func itself) on `args`.
+
+    trace: optional list; (op, operand values) is appended for every operation in execution order.
 
     args: ints (any representative of the bit pattern; bools allowed), floats, MemRef objects or plain
     lists for memref arguments (MemRef arguments are mutated in place: inspect them after the run).
     Raises UnsupportedOp for IR refsem has no semantics for; never raises for UB (-> POISON)."""
-    ev = _Eval(module, index_bits, fuel)
+    ev = _Eval(module, index_bits, fuel, trace)
     fop = ev.funcs.get(name)
     if fop is None:
         raise UnsupportedOp(f"no function {name}")
